@@ -574,6 +574,22 @@ def replay(rp):
         res = multi([(flow_seq(scalars), SUPERL_EXPRS)])[0]
         v, _, _ = judge_superl(scalars, greater, join_tt(res[2], res[3]) if greater else join_tt(res[0], res[1]))
         return v != "violation"
+    if kind == "multiseq":
+        seqs, o = rp["seqs"], rp["op"]
+        n = len(seqs)
+        if rp["mode"] == "eval-all":
+            r = vlib.yqh_batch([{"op": "multi", "input": "\n---\n".join(json.dumps(x) for x in seqs) + "\n", "exprs": [o], "all": True}])[0]
+            got = [x for x in ((r or {}).get("results") or [{}])[0].get("out", "").split("\n") if x]
+        else:
+            got = [x for x in (multi([(json.dumps(seqs), [".[] | %s" % o])])[0][0] or {}).get("out", "").split("\n") if x]
+        alone = []
+        for r in multi([(json.dumps(seqs), [".[%d] | %s" % (i, o) for i in range(n)])])[0]:
+            alone += [x for x in (r or {}).get("out", "").split("\n") if x]
+        return got == alone and (o not in ("min", "max") or alone == [json.dumps(min(x) if o == "min" else max(x)) for x in seqs if x])
+    if kind == "dtf":
+        r = multi([(rp["doc"], ['with_dtf("%s"; sort)' % rp["layout"]])])[0][0]
+        k, v = res_json(r)
+        return k == "ok" and v == rp["want"]
     if kind == "sort_keys":
         t = rp["tree"]
         res = multi([(json.dumps(t), ["sort_keys(..)"])])[0]
@@ -888,6 +904,95 @@ def run(chk):
             disagreements.append(("sort_keys", kc[i][2], repr(kc[i][1]), repr(mo)))
 
     mark("sort_keys")
+    # ---------------- several sequences in one context, and eval-all (oracle only) ----------------
+    # every operator works sequence by sequence: what it answers for the i-th matched sequence is what it answers for that sequence alone
+    MOPS = ["min", "max", "sort", "unique", "group_by(.)", "sort_by(.)", "sort | reverse"]
+    WORDS2 = ["a", "b", "c", "ab", "zz", "B", "q"]
+    groups = []
+    for _ in range(1500 if thorough else 150):
+        seqs = []
+        for _ in range(rng.choice([2, 3, 3, 4])):
+            n = rng.choice([0, 1, 2, 3, 4, 5])
+            if rng.random() < 0.6:
+                seqs.append([rng.randrange(-9, 40) for _ in range(n)])
+            else:
+                seqs.append([rng.choice(WORDS2) for _ in range(n)])
+        groups.append(seqs)
+    groups += [[[3, 1, 2], [5, 4, 6], [9, 8, 7], ["b", "a", "c"]], [[1, 2], [5, 4]], [[1, 2], []], [[3, 1], [5, 4]]]
+    reqs_a, reqs_b = [], []
+    for seqs in groups:
+        exprs = [".[] | %s" % o for o in MOPS]
+        for i in range(len(seqs)):
+            exprs += [".[%d] | %s" % (i, o) for o in MOPS]
+        reqs_a.append((json.dumps(seqs), exprs))
+        reqs_b.append({"op": "multi", "input": "\n---\n".join(json.dumps(x) for x in seqs) + "\n", "exprs": MOPS, "all": True, "deadline_ms": 60000})
+    res_a = multi(reqs_a)
+    res_b = vlib.yqh_parallel(reqs_b)
+    stats["multi_sequence_groups"] = len(groups)
+
+    def lines_of(r):
+        k, v = ("crash", None) if r is None else (("panic", r["panic"]) if r.get("panic") else (("err", r["err"]) if r.get("err") else ("ok", r.get("out", ""))))
+        return [x for x in v.split("\n") if x != ""] if k == "ok" else (k, v)
+
+    for seqs, ra, rb in zip(groups, res_a, res_b):
+        chk.count(("multiseq", json.dumps(seqs)), nontrivial=True)
+        nops = len(MOPS)
+        for oi, o in enumerate(MOPS):
+            alone = []
+            ok = True
+            for i in range(len(seqs)):
+                l = lines_of(ra[nops * (i + 1) + oi])
+                if not isinstance(l, list):
+                    ok = False
+                    break
+                alone += l
+            if not ok:
+                continue        # the operator is undefined on that sequence alone (nothing to compare)
+            if o in ("min", "max"):
+                want = [json.dumps(min(x) if o == "min" else max(x)) for x in seqs if x]
+                if alone != want:
+                    viol({"kind": "multiseq", "seqs": seqs, "op": o, "mode": "alone", "got": alone, "want": want}, "%s of single sequences gives %r, expected %r" % (o, alone, want))
+            together = lines_of(ra[oi])
+            if together != alone:
+                viol({"kind": "multiseq", "seqs": seqs, "op": o, "mode": "context", "got": together, "want": alone},
+                     "`.[] | %s` on %s gives %r but sequence by sequence %r" % (o, json.dumps(seqs), together, alone))
+            rb_res = (rb or {}).get("results") or [None] * nops
+            ea = lines_of(rb_res[oi])
+            if ea != alone:
+                viol({"kind": "multiseq", "seqs": seqs, "op": o, "mode": "eval-all", "got": ea, "want": alone},
+                     "eval-all `%s` over the documents %s gives %r but document by document %r" % (o, json.dumps(seqs), ea, alone))
+    mark("several_sequences")
+
+    # ---------------- the order under custom date layouts: with_dtf(L; sort), both argument orders (oracle only) ----------------
+    import datetime
+    LAYOUTS = [("02-Jan-2006", "%d-%b-%Y"), ("2006/01/02", "%Y/%m/%d"), ("02.01.2006 15:04", "%d.%m.%Y %H:%M")]
+    stats["date_layout_pairs"] = 0
+    for lay, fmt in LAYOUTS:
+        dates = [datetime.datetime(2011, 6, 12, 9, 30), datetime.datetime(2012, 2, 3, 18, 5), datetime.datetime(2020, 1, 1, 0, 0),
+                 datetime.datetime(1999, 12, 31, 23, 59), datetime.datetime(2012, 2, 4, 7, 0)]
+        dpool = [(None, (0,)), (True, (1, True)), (False, (1, False)), (2, (2, 2)), (7, (2, 7)), (30, (2, 30)), (-1, (2, -1)), (1.5, (2, 1.5))]
+        dpool += [(d.strftime(fmt), (3, datetime.datetime.strptime(d.strftime(fmt), fmt))) for d in dates]
+        dpool += [(w, (4, w.encode())) for w in ("cat", "Zed", "apple", "m")]
+        items = []
+        for a in range(len(dpool)):
+            for b in range(len(dpool)):
+                if a != b:
+                    items.append([dpool[a], dpool[b]])
+        for _ in range(200 if thorough else 40):
+            items.append(rng.sample(dpool, rng.randrange(3, 9)))
+        expr = 'with_dtf("%s"; sort)' % lay
+        expr2 = 'with_dtf("%s"; sort_by(.k)) | map(.k)' % lay
+        res_d = multi([(json.dumps([x for x, _ in it]), [expr]) for it in items] +
+                      [(json.dumps([{"k": x} for x, _ in it]), [expr2]) for it in items[-40:]])
+        for it, rs in zip(items + items[-40:], res_d):
+            stats["date_layout_pairs"] += 1
+            chk.count(("dtf", lay, json.dumps([x for x, _ in it])), nontrivial=True)
+            want = [x for x, _ in sorted(it, key=lambda p: p[1])]
+            k, v = res_json(rs[0])
+            if k != "ok" or v != want:
+                viol({"kind": "dtf", "layout": lay, "doc": json.dumps([x for x, _ in it]), "got": repr(v), "want": want},
+                     "under the date layout %s, sort of %s gives %r, the order (null, bool, numbers, dates by date, other strings) says %r" % (lay, json.dumps([x for x, _ in it]), v, want))
+    mark("date_layouts")
     chk.extra["phase_s"] = phase
     # ---------------- verdict ----------------
     if stats["tag_mismatch_skipped"] > 0.02 * max(1, len(cases)):
@@ -908,7 +1013,10 @@ def run(chk):
              "duplicates, extreme ints, hex/octal/underscore spellings, floats near rounding boundaries; up to 60 elements inside the consistent "
              "domain, up to 20 outside), plain sort on scalar sequences, every ordered pair of a %d-value pool (sort comparator and the four "
              "operators, exhaustive) with the order laws checked on every triple of the observed relation, min/max on scalar sequences, "
-             "sort_keys(..) on nested maps. A case is non-trivial when it has at least two elements; distinct by input text." % len(P),
+             "sort_keys(..) on nested maps; min / max / sort / unique / group_by / sort_by applied to several sequences in one context (`.[] | OP`) and under "
+             "eval-all, each compared with the same operator on every sequence alone; with_dtf(LAYOUT; sort) for three date layouts on every ordered pair "
+             "of a pool (null, bools, numbers, dates, other strings) and on samples, against the order computed here (oracle only, not modelled). "
+             "A case is non-trivial when it has at least two elements; distinct by input text." % len(P),
         trusted=vlib.COMMON_TRUSTED + [
             "Spec/Order.v (hand-written total preorder; numbers placed before strings by choice, never used to judge a mixed sequence)",
             "strconv.ParseInt / strconv.ParseFloat (decimal syntax, correct rounding) and sort.Stable below 21 elements are restated in Model/Sort.v; "
@@ -916,6 +1024,7 @@ def run(chk):
             "sort.Stable above 20 elements (symMerge) is not modelled: by C15_sort_unique any stable sort gives the same result on the consistent domain, "
             "and the check compares longer inputs only inside that domain",
             "scalars are (tag, text) as yq's YAML decoder produces them; the decoder's tagging is checked against the generator's expectation on every case",
-            "timestamps, custom tags, non-default date-time layouts and non-scalar sort keys are outside the model"],
+            "timestamps, custom tags and non-scalar sort keys are outside the model; non-default date-time layouts (with_dtf) and the handling of several "
+            "matched sequences / eval-all are outside the model too but are TESTED by the direct oracle"],
         assumptions=["the spec value of a !!float scalar is the binary64 its text denotes (YAML core schema)",
                      "correspondence is sampled; the unbounded claims are the Coq theorems over the model"])
